@@ -1,4 +1,5 @@
 import PacketVerif.Model.Parse
+import PacketVerif.Model.L2Loops
 import PacketVerif.Spec.Decode
 namespace PV.Drv.Views
 open PV PV.Model
@@ -54,6 +55,12 @@ def handle (cmd : String) (args : List String) : Option String :=
       | .hang => "hang"
       | .err e => "err " ++ e.toString
     some (m ++ " | spec: " ++ specStr (Spec.decode ⟨hm, rm, la, lb⟩ b))
+  | "lldp.pdu", [ty, h] => do
+    let ty ← ty.toNat?; let b ← fromHex h
+    some (outcomeStr Val.toString (lldpGetPDU b ty b.length 0))
+  | "l2.8023", [h] => do
+    let b ← fromHex h
+    some (outcomeStr (fun _ => "") (process8023 b)).trimAscii.toString
   | "allocs", [_, _, _, _, _] =>
     -- the model of Parse is a pure function over the caller's buffer (views are offsets, the Frame is
     -- returned by value): its predicted number of heap allocations is the constant 0
